@@ -25,6 +25,8 @@ func preludeTop() []T {
 		Asg("id", Fn(Ps("x"), N("x"))),
 		Asg("gi", I(2)),
 		Asg("ga", L(I(1), I(2))),
+		// returns its argument after nested arithmetic: whatever the caller kept in the temp register is gone
+		Asg("ar", Fn(Ps("x"), Bin("-", Bin("*", Bin("+", N("x"), I(1)), I(1)), I(1)))),
 	}
 }
 
@@ -76,6 +78,13 @@ func operands(sc scopeKind, full bool) []operand {
 		{"err:type", Un("!", I(2))},
 		{"err:zero", Bin("/", I(1), I(0))},
 		{"err:index", Ix(L(I(1)), I(5))},
+		{"int:call-arith", Call("ar", I(2))},
+		{"int:index-by-call", Ix(L(I(5), I(7), I(2)), Call("ar", I(2)))},
+		{"int:len-slice-hi-call", Un("#", Ix2(S("wxyz"), I(1), Call("ar", I(3))))},
+		{"arr:slice-hi-call", Ix2(L(I(0), I(1), I(2), I(3)), I(1), Call("ar", I(3)))},
+		{"arr:slice-lo-call", Ix2(L(I(0), I(1), I(2)), Call("ar", I(1)), I(3))},
+		{"arr:slice-of-call", Ix2(Call("id", L(I(0), I(1), I(2))), I(1), Call("ar", I(3)))},
+		{"arr:elem-call", L(I(1), Call("ar", I(2)))},
 		{"nil:call", Call("id", N("u"))},
 		{"nil:if", Call("noval")},
 	}
@@ -128,6 +137,10 @@ func exprContexts() []exprCtx {
 		{"right-depth1", func(e T) T { return Bin("+", I(0), e) }},
 		{"left-depth2", func(e T) T { return Bin("*", Bin("+", e, I(0)), I(1)) }},
 		{"right-depth2", func(e T) T { return Bin("*", I(1), Bin("+", I(0), e)) }},
+		{"right-of-temp", func(e T) T { return Bin("+", Bin("*", I(2), I(3)), e) }},
+		{"right-of-temp-deep", func(e T) T { return Bin("-", Bin("+", Bin("*", I(2), I(3)), e), I(1)) }},
+		{"right-of-temp-array", func(e T) T { return Bin("+", Bin("+", L(I(9)), L(I(8))), e) }},
+		{"unary-of-temp-sum", func(e T) T { return Un("#", Bin("+", Bin("+", L(I(9)), L(I(8))), e)) }},
 		{"right-of-call", func(e T) T { return Bin("+", Call("id", I(0)), e) }},
 		{"left-of-call", func(e T) T { return Bin("+", e, Call("id", I(0))) }},
 		{"call-arg", func(e T) T { return Call("id", e) }},
